@@ -136,7 +136,7 @@ class Stats:
         return d
 
 
-SOLVER_TIMEOUT_MS = 120000
+SOLVER_TIMEOUT_MS = 300000
 
 
 class SymCtx:
